@@ -53,7 +53,15 @@ func (r Req) HTTP(method string) *http.Request {
 	for _, kv := range r.Form {
 		form[kv.Key] = append(form[kv.Key], kv.Value)
 	}
-	req := &http.Request{Method: method, URL: &url.URL{Path: "/", RawQuery: q}, Header: h, PostForm: form, Form: form}
+	// net/http's ParseForm: PostForm holds the body fields; Form holds them followed by the URL query's values
+	merged := url.Values{}
+	for k, vs := range form {
+		merged[k] = append(merged[k], vs...)
+	}
+	for _, kv := range r.Query {
+		merged[kv.Key] = append(merged[kv.Key], kv.Value)
+	}
+	req := &http.Request{Method: method, URL: &url.URL{Path: "/", RawQuery: q}, Header: h, PostForm: form, Form: merged}
 	if r.HasBody {
 		req.Body = io.NopCloser(bytes.NewReader(r.Body))
 	} else {
